@@ -92,6 +92,7 @@ type actCall struct {
 	elapsed  int
 	started  time.Time
 	returned bool
+	pauses   int  // T pauses spent while the call was outstanding and the terminal connected
 	answered bool // the terminal sent a response echoing this command's serial while the call was waiting (long time-out)
 }
 
@@ -185,18 +186,24 @@ func runActScript(script string, srvArgs ...string) (string, *fw.OracleFailure) 
 			if _, _, ok := srv.WaitForFrom(jm, func(e sock.Event) bool { return sock.Str(e, "event") == "join" && sock.Str(e, "key") == key }, 3*time.Second); !ok {
 				return fail("join/no-join", "a connection whose first message is a terminal general response did not join")
 			}
-		case strings.HasPrefix(tok, "B") || strings.HasPrefix(tok, "b"): // burst of n commands issued back to back
+		case strings.HasPrefix(tok, "B") || strings.HasPrefix(tok, "b") || strings.HasPrefix(tok, "s"): // burst of n commands issued back to back
 			n, _ := strconv.Atoi(tok[1:])
 			bursts++
 			for i := 1; i <= n; i++ {
 				tag := fmt.Sprintf("y%d%d", bursts, i)
-				c := &actCall{tag: tag, serial: -1, started: time.Now()}
+				c := &actCall{tag: tag, serial: -1, started: time.Now(), short: tok[0] == 's'}
 				calls[tag] = c
 				order = append(order, tag)
-				_ = srv.Command(fmt.Sprintf("send %s %s %d 00 %d", tag, key, 0x8103, 8000))
+				to := 8000
+				if tok[0] == 's' { // n commands with the 150 ms time-out to a terminal that stays silent: n time-outs fall due together
+					to = 150
+				}
+				_ = srv.Command(fmt.Sprintf("send %s %s %d 00 %d", tag, key, 0x8103, to))
 			}
-			if tok[0] == 'B' { // wait until every command frame has reached the terminal
-				burstWant += n
+			if tok[0] == 'B' || tok[0] == 's' { // wait until every command frame has reached the terminal
+				if tok[0] == 'B' {
+					burstWant += n
+				}
 				if cl != nil {
 					deadline := time.Now().Add(4 * time.Second)
 					got := 0
@@ -207,7 +214,9 @@ func runActScript(script string, srvArgs ...string) (string, *fw.OracleFailure) 
 							}
 						}
 					}
-					burstGot += got
+					if tok[0] == 'B' {
+						burstGot += got
+					}
 				}
 			} else {
 				time.Sleep(30 * time.Millisecond)
@@ -362,6 +371,16 @@ func runActScript(script string, srvArgs ...string) (string, *fw.OracleFailure) 
 			}
 		case tok == "T":
 			time.Sleep(450 * time.Millisecond)
+			// a 150 ms command issued to a connected terminal that has stayed silent for two such pauses must have come back
+			collect(0)
+			for _, tag := range order {
+				if c := calls[tag]; c.short && c.serial != -2 && cl != nil {
+					c.pauses++
+					if c.pauses >= 2 && !c.returned && lateOrc == nil && time.Since(c.started) > 900*time.Millisecond {
+						lateOrc = &fw.OracleFailure{Sig: "active/timeout-not-delivered", Msg: fmt.Sprintf("call %s with a 150 ms time-out has not returned %d ms after it was made, the terminal being connected and silent", tag, time.Since(c.started).Milliseconds())}
+					}
+				}
+			}
 		case tok == "U":
 			time.Sleep(3300 * time.Millisecond)
 			collect(0)
@@ -611,6 +630,11 @@ func genC13(r *fw.Rng, tier string, emit func(fw.Case)) {
 		emit(fw.Case{Op: "act", Args: []string{s}})
 	}
 	// commands queued but not yet written when the terminal goes away: every one of them must come back
+	// more short-time-out commands than the completion queue holds (3) expire together while the writer is busy: every
+	// caller gets its time-out when it is due, not when the terminal happens to disconnect
+	for _, s := range []string{"J,s6,T,T,H", "J,s9,T,T,H,CaL,Ra", "J,s5,T,s5,T,T,H"} {
+		emit(fw.Case{Op: "act", Args: []string{s}})
+	}
 	for _, s := range []string{"J,b4,X", "J,b6,X", "J,b8,X", "J,b5,X,J,CaL,Ra", "J,B5,X"} {
 		emit(fw.Case{Op: "act", Args: []string{s}})
 	}
@@ -639,7 +663,7 @@ func execAct(c fw.Case) string {
 	var o *fw.OracleFailure
 	switch c.Op {
 	case "act":
-		if strings.Contains(c.Args[0], "B") || strings.Contains(c.Args[0], "b") || strings.Contains(c.Args[0], "Q:") {
+		if strings.Contains(c.Args[0], "B") || strings.Contains(c.Args[0], "b") || strings.Contains(c.Args[0], "Q:") || strings.Contains(c.Args[0], ",s") {
 			// bursts: a slow write callback lets the connection's queue (capacity 3) fill up
 			res, o = runActScript(c.Args[0], "-slow-write-ms", "40")
 		} else {
